@@ -800,7 +800,7 @@ func c08BusyProp(t *testing.T, r *hx.Run, sub string) func(c c08Busy) hx.Verdict
 	return func(c c08Busy) hx.Verdict {
 		r.SetCurrent(sub, c)
 		v := hx.Verdict{Class: fmt.Sprintf("writers=%d/%s", c.Writers, c.Fault)}
-		if c.Writers >= 1 && (c.Fault == "type" || c.Fault == "unexpected") {
+		if c.Writers >= 1 && (c.Fault == "type" || c.Fault == "unexpected" || c.Fault == "handler") {
 			v.NT = fmt.Sprintf("%+v", c)
 		}
 		p := basePeer(c.Out)
@@ -838,6 +838,11 @@ func c08BusyProp(t *testing.T, r *hx.Run, sub string) func(c c08Busy) hx.Verdict
 			hdr := wire.Keepalive()
 			want := wire.Notif{Code: 1}
 			switch c.Fault {
+			case "handler":
+				// (C03) an UPDATE whose handler returns a Notification: sent verbatim, in one piece
+				data := detBytes(int(c.Type)%40, uint32(c.Type))
+				hdr = wire.Frame(wire.TypeUpdate, world.MagicUpdate(3, c.Type, data))
+				want = wire.Notif{Code: 3, Sub: c.Type, Data: data}
 			case "unexpected":
 				// (C09) a well-formed message that the state does not allow: an OPEN in Established
 				hdr = world.RemoteOpen(p, conn, 90, 0x0a000002).Frame()
@@ -879,7 +884,7 @@ func c08BusyProp(t *testing.T, r *hx.Run, sub string) func(c c08Busy) hx.Verdict
 				return
 			}
 			n := notifs[0]
-			if n.Code != want.Code || n.Sub != want.Sub || ((c.Fault == "type" || c.Fault == "unexpected") && !bytes.Equal(n.Data, want.Data)) {
+			if n.Code != want.Code || n.Sub != want.Sub || ((c.Fault == "type" || c.Fault == "unexpected" || c.Fault == "handler") && !bytes.Equal(n.Data, want.Data)) {
 				fail("wrong-notification", "%s fault while %d goroutines write: answered with %v, want %v", c.Fault, c.Writers, n, want)
 				return
 			}
